@@ -5,6 +5,9 @@ import casadi as ca
 _cache = {}
 
 
+APPENDED = set()        # exported functions that return more results than the pinned interface (reported as SPEC-DRIFT by Run.finish)
+
+
 def batch_call(f: ca.Function, cols, chunk: int = 1024, threads: int = 1):
     """cols: one array per input, shape (numel_in_i, N) (or (N,) for scalar inputs).
     All inputs of f must be column vectors/scalars. Returns list of arrays (numel_out_j, N)."""
@@ -39,6 +42,15 @@ def batch_call(f: ca.Function, cols, chunk: int = 1024, threads: int = 1):
     if IFACE and _named_budget.get(id(f), 0) < 3:
         for k in sorted({0, N // 2, N - 1}):
             named_probe(f, [c[:, k] for c in cols], [o[:, k] for o in outs])
+    # results APPENDED to an exported function (existing outputs keep position and name) are none of the caller's business:
+    # the callers unpack the pinned interface (harness/iface_names.json)
+    if IFACE:
+        nm = f.name()
+        for k_, v_ in IFACE.items():
+            if (k_ == nm or k_.endswith(":" + nm)) and len(v_["in"]) == f.n_in() and len(v_["out"]) < f.n_out() \
+                    and [f.name_out(j) for j in range(len(v_["out"]))] == list(v_["out"]):
+                APPENDED.add(nm)
+                return outs[:len(v_["out"])]
     return outs
 
 
